@@ -94,6 +94,17 @@ type PD struct {
 	id     int
 	net    *Net
 	lastTS atomic.Uint64
+	// tsoHook, when set, runs inside every timestamp request of this client before the timestamp is issued (PD latency)
+	tsoHook atomic.Pointer[func()]
+}
+
+// SetTSOHook installs (or, with nil, removes) a hook that runs inside every timestamp request of this client.
+func (p *PD) SetTSOHook(f func()) {
+	if f == nil {
+		p.tsoHook.Store(nil)
+		return
+	}
+	p.tsoHook.Store(&f)
 }
 
 // WithCallerComponent must not unwrap the interposer.
@@ -103,6 +114,9 @@ func (p *PD) WithCallerComponent(caller.Component) pd.Client { return p }
 func (p *PD) Close() {}
 
 func (p *PD) issue() (int64, int64, error) {
+	if h := p.tsoHook.Load(); h != nil {
+		(*h)()
+	}
 	if p.net != nil && p.net.Killed() {
 		return 0, 0, errors.WithStack(context.Canceled)
 	}
